@@ -207,20 +207,11 @@ fn roundtrip_text(width: u8, be: bool, bom: bool, n: usize, cs: [Sc; 3]) -> usiz
     enc.n
 }
 
-fn first_scalar(symbolic_c0: bool) -> Sc {
-    if symbolic_c0 {
-        any_scalar_of_class(1)
-    } else {
-        SET[0]
-    }
-}
-
 /// (b) all 21 texts  c0 | c0 c1 | c0 c1 c2  with c1, c2 in SET (every index pair enumerated by a
-/// concrete loop, so each decode runs with concrete lengths).  c0 is 'a' (`symbolic_c0 == false`)
-/// or a SYMBOLIC ASCII character 0x01..=0x7F.  Returns a bit set of the length residues mod 4 that
-/// occurred.
-fn roundtrip_set(width: u8, be: bool, bom: bool, symbolic_c0: bool) -> u8 {
-    let c0 = first_scalar(symbolic_c0);
+/// concrete loop, so each decode runs with concrete data), c0 = 'a'.  Returns a bit set of the length
+/// residues mod 4 that occurred.
+fn roundtrip_set(width: u8, be: bool, bom: bool) -> u8 {
+    let c0 = SET[0];
     let mut residues: u8 = 0;
     let l = roundtrip_text(width, be, bom, 1, [c0, NONE, NONE]);
     residues |= 1 << (l % 4);
@@ -242,8 +233,8 @@ fn roundtrip_set(width: u8, be: bool, bom: bool, symbolic_c0: bool) -> u8 {
 /// (b, sample) the 4 texts  c0 | c0 U+20AC | c0 U+00E9 U+20AC | c0 U+00E9 U+1F600 : UTF-8 lengths
 /// 1, 4, 6, 7 (with BOM 4, 7, 9, 10), UTF-16 lengths 2, 4, 6, 8 (+2), i.e. every feasible length
 /// residue mod 4, a BMP and a non-BMP character.
-fn roundtrip_sample(width: u8, be: bool, bom: bool, symbolic_c0: bool) -> u8 {
-    let c0 = first_scalar(symbolic_c0);
+fn roundtrip_sample(width: u8, be: bool, bom: bool) -> u8 {
+    let c0 = SET[0];
     let mut residues: u8 = 0;
     let l = roundtrip_text(width, be, bom, 1, [c0, NONE, NONE]);
     residues |= 1 << (l % 4);
@@ -257,7 +248,7 @@ fn roundtrip_sample(width: u8, be: bool, bom: bool, symbolic_c0: bool) -> u8 {
 }
 
 macro_rules! c17_roundtrip {
-    ($qname:ident, $name:ident, $symname:ident, $qunwind:literal, $unwind:literal, $width:expr, $be:expr, $bom:expr, $residues:expr, $doc:literal) => {
+    ($qname:ident, $name:ident, $qunwind:literal, $unwind:literal, $width:expr, $be:expr, $bom:expr, $residues:expr, $doc:literal) => {
         #[doc = $doc]
         ///
         /// QUICK SAMPLE: `load_tail(E(s)) == s` (load_tail = verbatim `decode_raw_bytes` + BOM strip
@@ -267,7 +258,7 @@ macro_rules! c17_roundtrip {
         #[kani::proof]
         #[kani::unwind($qunwind)]
         fn $qname() {
-            let residues = roundtrip_sample($width, $be, $bom, false);
+            let residues = roundtrip_sample($width, $be, $bom);
             assert!(residues == $residues, "C17 harness: length residues mod 4 not all covered");
         }
 
@@ -280,34 +271,22 @@ macro_rules! c17_roundtrip {
         #[kani::proof]
         #[kani::unwind($unwind)]
         fn $name() {
-            let residues = roundtrip_set($width, $be, $bom, false);
-            assert!(residues == $residues, "C17 harness: length residues mod 4 not all covered");
-        }
-
-        #[doc = $doc]
-        ///
-        /// As the quick sample, but the first scalar is ANY ASCII character 0x01..=0x7F (symbolic;
-        /// this makes the UTF-16/UTF-32 detection branches live for the solver).
-        /// BOUNDED (4 text shapes x 127 first characters).
-        #[kani::proof]
-        #[kani::unwind($qunwind)]
-        fn $symname() {
-            let residues = roundtrip_sample($width, $be, $bom, true);
+            let residues = roundtrip_set($width, $be, $bom);
             assert!(residues == $residues, "C17 harness: length residues mod 4 not all covered");
         }
     };
 }
 
-c17_roundtrip!(c17_rtq_utf8, c17_rt_utf8, c17_rtsym_utf8, 9, 11, 1, false, false, 0b1111, "C17(b) UTF-8 without BOM.");
-c17_roundtrip!(c17_rtq_utf8_bom, c17_rt_utf8_bom, c17_rtsym_utf8_bom, 12, 14, 1, false, true, 0b1111, "C17(b) UTF-8 with BOM.");
-c17_roundtrip!(c17_rtq_utf16le, c17_rt_utf16le, c17_rtsym_utf16le, 10, 12, 2, false, false, 0b0101, "C17(b) UTF-16LE without BOM.");
-c17_roundtrip!(c17_rtq_utf16le_bom, c17_rt_utf16le_bom, c17_rtsym_utf16le_bom, 12, 14, 2, false, true, 0b0101, "C17(b) UTF-16LE with BOM.");
-c17_roundtrip!(c17_rtq_utf16be, c17_rt_utf16be, c17_rtsym_utf16be, 10, 12, 2, true, false, 0b0101, "C17(b) UTF-16BE without BOM.");
-c17_roundtrip!(c17_rtq_utf16be_bom, c17_rt_utf16be_bom, c17_rtsym_utf16be_bom, 12, 14, 2, true, true, 0b0101, "C17(b) UTF-16BE with BOM.");
-c17_roundtrip!(c17_rtq_utf32le, c17_rt_utf32le, c17_rtsym_utf32le, 14, 14, 4, false, false, 0b0001, "C17(b) UTF-32LE without BOM.");
-c17_roundtrip!(c17_rtq_utf32le_bom, c17_rt_utf32le_bom, c17_rtsym_utf32le_bom, 18, 18, 4, false, true, 0b0001, "C17(b) UTF-32LE with BOM.");
-c17_roundtrip!(c17_rtq_utf32be, c17_rt_utf32be, c17_rtsym_utf32be, 14, 14, 4, true, false, 0b0001, "C17(b) UTF-32BE without BOM.");
-c17_roundtrip!(c17_rtq_utf32be_bom, c17_rt_utf32be_bom, c17_rtsym_utf32be_bom, 18, 18, 4, true, true, 0b0001, "C17(b) UTF-32BE with BOM.");
+c17_roundtrip!(c17_rtq_utf8, c17_rt_utf8, 9, 11, 1, false, false, 0b1111, "C17(b) UTF-8 without BOM.");
+c17_roundtrip!(c17_rtq_utf8_bom, c17_rt_utf8_bom, 12, 14, 1, false, true, 0b1111, "C17(b) UTF-8 with BOM.");
+c17_roundtrip!(c17_rtq_utf16le, c17_rt_utf16le, 10, 12, 2, false, false, 0b0101, "C17(b) UTF-16LE without BOM.");
+c17_roundtrip!(c17_rtq_utf16le_bom, c17_rt_utf16le_bom, 12, 14, 2, false, true, 0b0101, "C17(b) UTF-16LE with BOM.");
+c17_roundtrip!(c17_rtq_utf16be, c17_rt_utf16be, 10, 12, 2, true, false, 0b0101, "C17(b) UTF-16BE without BOM.");
+c17_roundtrip!(c17_rtq_utf16be_bom, c17_rt_utf16be_bom, 12, 14, 2, true, true, 0b0101, "C17(b) UTF-16BE with BOM.");
+c17_roundtrip!(c17_rtq_utf32le, c17_rt_utf32le, 14, 14, 4, false, false, 0b0001, "C17(b) UTF-32LE without BOM.");
+c17_roundtrip!(c17_rtq_utf32le_bom, c17_rt_utf32le_bom, 18, 18, 4, false, true, 0b0001, "C17(b) UTF-32LE with BOM.");
+c17_roundtrip!(c17_rtq_utf32be, c17_rt_utf32be, 14, 14, 4, true, false, 0b0001, "C17(b) UTF-32BE without BOM.");
+c17_roundtrip!(c17_rtq_utf32be_bom, c17_rt_utf32be_bom, 18, 18, 4, true, true, 0b0001, "C17(b) UTF-32BE with BOM.");
 
 /// a symbolic scalar value whose UTF-8 form has exactly `class` bytes (class 1 excludes U+0000;
 /// class 3 excludes the surrogates D800..DFFF); `class` is concrete
@@ -317,8 +296,8 @@ fn any_scalar_of_class(class: u8) -> Sc {
     s
 }
 
-/// (b+) stronger variant for one concrete *shape*: text c0 c1 with c0 any ASCII non-NUL and c1 ANY
-/// scalar value of the given UTF-8 length class (fully symbolic, not only the SET member).
+/// (b+) stronger variant for one concrete *shape*: text c0 c1 with c0 ANY ASCII non-NUL and c1 ANY
+/// scalar value of the given UTF-8 length class (both fully symbolic, not only the SET members).
 fn roundtrip_class2(width: u8, be: bool, bom: bool, class1: u8) {
     let c0 = any_scalar_of_class(1);
     let c1 = any_scalar_of_class(class1);
@@ -326,33 +305,63 @@ fn roundtrip_class2(width: u8, be: bool, bom: bool, class1: u8) {
 }
 
 macro_rules! c17_roundtrip_any {
-    ($name:ident, $unwind:literal, $width:expr, $be:expr, $bom:expr, $doc:literal) => {
+    ($name:ident, $unwind:literal, $width:expr, $be:expr, $bom:expr, $class:expr, $doc:literal) => {
         #[doc = $doc]
         ///
-        /// (b+) `load_tail(E(c0 c1)) == c0 c1` for c0 ANY ASCII 0x01..=0x7F and c1 ANY Unicode
-        /// scalar value except U+0000 (four sub-cases by UTF-8 length class, content fully
-        /// symbolic).  BOUNDED (texts of exactly 2 scalars).
+        /// (b+) `load_tail(E(c0 c1)) == c0 c1` for c0 ANY ASCII 0x01..=0x7F and c1 ANY Unicode scalar
+        /// value of the stated UTF-8 length class (class 1: U+0001..7F, 2: U+0080..7FF,
+        /// 3: U+0800..FFFF without surrogates, 4: U+10000..10FFFF), content fully symbolic.
+        /// The four class harnesses of an encoding together cover every c1 except U+0000.
+        /// BOUNDED (texts of exactly 2 scalars).
         #[kani::proof]
         #[kani::unwind($unwind)]
         fn $name() {
-            roundtrip_class2($width, $be, $bom, 1);
-            roundtrip_class2($width, $be, $bom, 2);
-            roundtrip_class2($width, $be, $bom, 3);
-            roundtrip_class2($width, $be, $bom, 4);
+            roundtrip_class2($width, $be, $bom, $class);
         }
     };
 }
 
-c17_roundtrip_any!(c17_rtany_utf8, 7, 1, false, false, "C17(b+) UTF-8 without BOM.");
-c17_roundtrip_any!(c17_rtany_utf8_bom, 10, 1, false, true, "C17(b+) UTF-8 with BOM.");
-c17_roundtrip_any!(c17_rtany_utf16le, 8, 2, false, false, "C17(b+) UTF-16LE without BOM.");
-c17_roundtrip_any!(c17_rtany_utf16le_bom, 10, 2, false, true, "C17(b+) UTF-16LE with BOM.");
-c17_roundtrip_any!(c17_rtany_utf16be, 8, 2, true, false, "C17(b+) UTF-16BE without BOM.");
-c17_roundtrip_any!(c17_rtany_utf16be_bom, 10, 2, true, true, "C17(b+) UTF-16BE with BOM.");
-c17_roundtrip_any!(c17_rtany_utf32le, 10, 4, false, false, "C17(b+) UTF-32LE without BOM.");
-c17_roundtrip_any!(c17_rtany_utf32le_bom, 14, 4, false, true, "C17(b+) UTF-32LE with BOM.");
-c17_roundtrip_any!(c17_rtany_utf32be, 10, 4, true, false, "C17(b+) UTF-32BE without BOM.");
-c17_roundtrip_any!(c17_rtany_utf32be_bom, 14, 4, true, true, "C17(b+) UTF-32BE with BOM.");
+// unwind = encoded length + 2
+c17_roundtrip_any!(c17_rtany_utf8_c1, 4, 1, false, false, 1, "C17(b+) UTF-8 without BOM, second scalar of UTF-8 class 1 (2 bytes).");
+c17_roundtrip_any!(c17_rtany_utf8_c2, 5, 1, false, false, 2, "C17(b+) UTF-8 without BOM, second scalar of UTF-8 class 2 (3 bytes).");
+c17_roundtrip_any!(c17_rtany_utf8_c3, 6, 1, false, false, 3, "C17(b+) UTF-8 without BOM, second scalar of UTF-8 class 3 (4 bytes).");
+c17_roundtrip_any!(c17_rtany_utf8_c4, 7, 1, false, false, 4, "C17(b+) UTF-8 without BOM, second scalar of UTF-8 class 4 (5 bytes).");
+c17_roundtrip_any!(c17_rtany_utf8_bom_c1, 7, 1, false, true, 1, "C17(b+) UTF-8 with BOM, second scalar of UTF-8 class 1 (5 bytes).");
+c17_roundtrip_any!(c17_rtany_utf8_bom_c2, 8, 1, false, true, 2, "C17(b+) UTF-8 with BOM, second scalar of UTF-8 class 2 (6 bytes).");
+c17_roundtrip_any!(c17_rtany_utf8_bom_c3, 9, 1, false, true, 3, "C17(b+) UTF-8 with BOM, second scalar of UTF-8 class 3 (7 bytes).");
+c17_roundtrip_any!(c17_rtany_utf8_bom_c4, 10, 1, false, true, 4, "C17(b+) UTF-8 with BOM, second scalar of UTF-8 class 4 (8 bytes).");
+c17_roundtrip_any!(c17_rtany_utf16le_c1, 6, 2, false, false, 1, "C17(b+) UTF-16LE without BOM, second scalar of UTF-8 class 1 (4 bytes).");
+c17_roundtrip_any!(c17_rtany_utf16le_c2, 6, 2, false, false, 2, "C17(b+) UTF-16LE without BOM, second scalar of UTF-8 class 2 (4 bytes).");
+c17_roundtrip_any!(c17_rtany_utf16le_c3, 6, 2, false, false, 3, "C17(b+) UTF-16LE without BOM, second scalar of UTF-8 class 3 (4 bytes).");
+c17_roundtrip_any!(c17_rtany_utf16le_c4, 8, 2, false, false, 4, "C17(b+) UTF-16LE without BOM, second scalar of UTF-8 class 4 (6 bytes).");
+c17_roundtrip_any!(c17_rtany_utf16le_bom_c1, 8, 2, false, true, 1, "C17(b+) UTF-16LE with BOM, second scalar of UTF-8 class 1 (6 bytes).");
+c17_roundtrip_any!(c17_rtany_utf16le_bom_c2, 8, 2, false, true, 2, "C17(b+) UTF-16LE with BOM, second scalar of UTF-8 class 2 (6 bytes).");
+c17_roundtrip_any!(c17_rtany_utf16le_bom_c3, 8, 2, false, true, 3, "C17(b+) UTF-16LE with BOM, second scalar of UTF-8 class 3 (6 bytes).");
+c17_roundtrip_any!(c17_rtany_utf16le_bom_c4, 10, 2, false, true, 4, "C17(b+) UTF-16LE with BOM, second scalar of UTF-8 class 4 (8 bytes).");
+c17_roundtrip_any!(c17_rtany_utf16be_c1, 6, 2, true, false, 1, "C17(b+) UTF-16BE without BOM, second scalar of UTF-8 class 1 (4 bytes).");
+c17_roundtrip_any!(c17_rtany_utf16be_c2, 6, 2, true, false, 2, "C17(b+) UTF-16BE without BOM, second scalar of UTF-8 class 2 (4 bytes).");
+c17_roundtrip_any!(c17_rtany_utf16be_c3, 6, 2, true, false, 3, "C17(b+) UTF-16BE without BOM, second scalar of UTF-8 class 3 (4 bytes).");
+c17_roundtrip_any!(c17_rtany_utf16be_c4, 8, 2, true, false, 4, "C17(b+) UTF-16BE without BOM, second scalar of UTF-8 class 4 (6 bytes).");
+c17_roundtrip_any!(c17_rtany_utf16be_bom_c1, 8, 2, true, true, 1, "C17(b+) UTF-16BE with BOM, second scalar of UTF-8 class 1 (6 bytes).");
+c17_roundtrip_any!(c17_rtany_utf16be_bom_c2, 8, 2, true, true, 2, "C17(b+) UTF-16BE with BOM, second scalar of UTF-8 class 2 (6 bytes).");
+c17_roundtrip_any!(c17_rtany_utf16be_bom_c3, 8, 2, true, true, 3, "C17(b+) UTF-16BE with BOM, second scalar of UTF-8 class 3 (6 bytes).");
+c17_roundtrip_any!(c17_rtany_utf16be_bom_c4, 10, 2, true, true, 4, "C17(b+) UTF-16BE with BOM, second scalar of UTF-8 class 4 (8 bytes).");
+c17_roundtrip_any!(c17_rtany_utf32le_c1, 10, 4, false, false, 1, "C17(b+) UTF-32LE without BOM, second scalar of UTF-8 class 1 (8 bytes).");
+c17_roundtrip_any!(c17_rtany_utf32le_c2, 10, 4, false, false, 2, "C17(b+) UTF-32LE without BOM, second scalar of UTF-8 class 2 (8 bytes).");
+c17_roundtrip_any!(c17_rtany_utf32le_c3, 10, 4, false, false, 3, "C17(b+) UTF-32LE without BOM, second scalar of UTF-8 class 3 (8 bytes).");
+c17_roundtrip_any!(c17_rtany_utf32le_c4, 10, 4, false, false, 4, "C17(b+) UTF-32LE without BOM, second scalar of UTF-8 class 4 (8 bytes).");
+c17_roundtrip_any!(c17_rtany_utf32le_bom_c1, 14, 4, false, true, 1, "C17(b+) UTF-32LE with BOM, second scalar of UTF-8 class 1 (12 bytes).");
+c17_roundtrip_any!(c17_rtany_utf32le_bom_c2, 14, 4, false, true, 2, "C17(b+) UTF-32LE with BOM, second scalar of UTF-8 class 2 (12 bytes).");
+c17_roundtrip_any!(c17_rtany_utf32le_bom_c3, 14, 4, false, true, 3, "C17(b+) UTF-32LE with BOM, second scalar of UTF-8 class 3 (12 bytes).");
+c17_roundtrip_any!(c17_rtany_utf32le_bom_c4, 14, 4, false, true, 4, "C17(b+) UTF-32LE with BOM, second scalar of UTF-8 class 4 (12 bytes).");
+c17_roundtrip_any!(c17_rtany_utf32be_c1, 10, 4, true, false, 1, "C17(b+) UTF-32BE without BOM, second scalar of UTF-8 class 1 (8 bytes).");
+c17_roundtrip_any!(c17_rtany_utf32be_c2, 10, 4, true, false, 2, "C17(b+) UTF-32BE without BOM, second scalar of UTF-8 class 2 (8 bytes).");
+c17_roundtrip_any!(c17_rtany_utf32be_c3, 10, 4, true, false, 3, "C17(b+) UTF-32BE without BOM, second scalar of UTF-8 class 3 (8 bytes).");
+c17_roundtrip_any!(c17_rtany_utf32be_c4, 10, 4, true, false, 4, "C17(b+) UTF-32BE without BOM, second scalar of UTF-8 class 4 (8 bytes).");
+c17_roundtrip_any!(c17_rtany_utf32be_bom_c1, 14, 4, true, true, 1, "C17(b+) UTF-32BE with BOM, second scalar of UTF-8 class 1 (12 bytes).");
+c17_roundtrip_any!(c17_rtany_utf32be_bom_c2, 14, 4, true, true, 2, "C17(b+) UTF-32BE with BOM, second scalar of UTF-8 class 2 (12 bytes).");
+c17_roundtrip_any!(c17_rtany_utf32be_bom_c3, 14, 4, true, true, 3, "C17(b+) UTF-32BE with BOM, second scalar of UTF-8 class 3 (12 bytes).");
+c17_roundtrip_any!(c17_rtany_utf32be_bom_c4, 14, 4, true, true, 4, "C17(b+) UTF-32BE with BOM, second scalar of UTF-8 class 4 (12 bytes).");
 
 /// (a) totality of `decode_raw_bytes` for one concrete length L: every byte string of exactly L
 /// bytes is decoded without panic, arithmetic overflow or out-of-bounds access (Kani's built-in
